@@ -191,20 +191,26 @@ def wordFields (env : Env) (parts : List Part) : List Bytes :=
   let fields := if w.allowEmpty && w.fields.length == 0 then w.fields ++ [w.cur] else w.fields
   fields.map fieldJoin
 
-/-! ## Model of expand.Literal (assignments, here-strings, `case` words): no field splitting -/
+/-! ## Model of expand.Literal / literalKeepEscapes: no field splitting -/
 
-/-- One part under `wordField(parts, quoteNone)`.  The branch that removes backslashes is guarded
-    by `ql == quoteDouble || ql == quoteHeredoc`: an unquoted literal keeps its backslashes. -/
-def literalVal (env : Env) : Part → Bytes
-  | .lit s => s.takeWhile (· != 0)
+/-- One part under `wordField(parts, quoteNone, unescape)`: when `unescape` is set (532994e) the
+    backslash escapes of an unquoted literal are removed with the same loop as in `wordFields`
+    (`unescapeLit`), then the literal is cut at the first NUL. -/
+def literalVal (unescape : Bool) (env : Env) : Part → Bytes
+  | .lit s => (if unescape then unbackslash s else s).takeWhile (· != 0)
   | .sgl s => s
   | .dbl ps => (ps.map (dpartVal env)).flatten
   | .exp v => strBytes v
   | .at => joinBytes [32] (env.params.map strBytes)
   | .star => joinBytes (ifsSep env.ifs) (env.params.map strBytes)
 
-/-- `expand.Literal(cfg, word)`. -/
-def literal (env : Env) (parts : List Part) : Bytes := (parts.map (literalVal env)).flatten
+/-- `expand.Literal(cfg, word)` (assignments, here-strings, `case` words, …): unescapes. -/
+def literal (env : Env) (parts : List Part) : Bytes := (parts.map (literalVal true env)).flatten
+
+/-- `literalKeepEscapes(cfg, word)` (unexported: words of `${v:-word}`, `${v/p/repl}`, arithmetic):
+    the backslashes of unquoted literals stay. -/
+def literalKeepEscapes (env : Env) (parts : List Part) : Bytes :=
+  (parts.map (literalVal false env)).flatten
 
 /-- Quote removal without field splitting (POSIX 2.6.7; assignments 2.9.1). -/
 def posixLiteralVal (env : Env) : Part → Bytes
